@@ -165,6 +165,63 @@ pub fn c17(tier: &str, seed: u64) {
       stat("oracle.C17.concurrent_callers");
     }
   }
+  // PARTIAL COLLISIONS between honest shares (birthday search over fresh create_share outputs):
+  // two distinct shares of one measurement that agree on a window of their bytes - the low or high
+  // bytes of the evaluation point, of the value, the leading or trailing base64 characters - are
+  // still two distinct shares, and threshold-many of them recover
+  {
+    use rayon::prelude::*;
+    let draws: usize = if quick(tier) { 250_000 } else { 800_000 };
+    let m = b"partial share collisions".to_vec();
+    let made: Vec<(String, String, Vec<u8>)> = (0..draws)
+      .into_par_iter()
+      .filter_map(|_| {
+        let text = catch_unwind(AssertUnwindSafe(|| star_wasm::create_share(&m, 2, "ep"))).ok()?;
+        let v: serde_json::Value = serde_json::from_str(&text).ok()?;
+        let sh = v.get("share")?.as_str()?.to_string();
+        let key = v.get("key")?.as_str()?.to_string();
+        let raw = BASE64_STANDARD.decode(sh.as_bytes()).ok()?;
+        Some((sh, key, raw))
+      })
+      .collect();
+    stat_n("oracle.C17.partial_collision_draws", made.len() as u64);
+    // windows: (name, extractor)
+    let windows: Vec<(&str, Box<dyn Fn(&(String, String, Vec<u8>)) -> Option<Vec<u8>>>)> = vec![
+      ("first 16 base64 characters (header and the low 4 bytes of the point)", Box::new(|c| c.0.as_bytes().get(..16).map(|x| x.to_vec()))),
+      ("low 4 bytes of the evaluation point", Box::new(|c| c.2.get(8..12).map(|x| x.to_vec()))),
+      ("bytes 4..8 of the evaluation point", Box::new(|c| c.2.get(12..16).map(|x| x.to_vec()))),
+      ("bytes 12..16 of the evaluation point", Box::new(|c| c.2.get(20..24).map(|x| x.to_vec()))),
+      ("low 4 bytes of the first value", Box::new(|c| c.2.get(32..36).map(|x| x.to_vec()))),
+      ("last 4 bytes of the share", Box::new(|c| c.2.len().checked_sub(4).and_then(|i| c.2.get(i..)).map(|x| x.to_vec()))),
+      ("last 6 base64 characters", Box::new(|c| c.0.len().checked_sub(6).and_then(|i| c.0.as_bytes().get(i..)).map(|x| x.to_vec()))),
+    ];
+    for (name, f) in &windows {
+      let mut seen: std::collections::HashMap<Vec<u8>, usize> = Default::default();
+      let mut pairs = 0usize;
+      for (i, c) in made.iter().enumerate() {
+        let Some(k) = f(c) else { continue };
+        if let Some(&j) = seen.get(&k) {
+          if made[j].0 != c.0 && pairs < 4 {
+            pairs += 1;
+            stat("oracle.C17.partial_collision_pairs");
+            for (a, b) in [(j, i), (i, j)] {
+              let ser = format!("{}\n{}", made[a].0, made[b].0);
+              let got = group_guarded(&ser, "ep").ok().flatten();
+              if got.as_deref() != Some(made[a].1.as_str()) {
+                fail(
+                  "group_shares_missed_key",
+                  &[("what", format!("two distinct shares of one measurement (threshold 2) that agree on the {}", name)), ("serialized_shares", ser.clone()), ("epoch", "ep".into()), ("clients_key", made[a].1.clone()), ("returned", format!("{:?}", got))],
+                );
+              }
+              case(true);
+            }
+          }
+        } else {
+          seen.insert(k, i);
+        }
+      }
+    }
+  }
   let n = if quick(tier) { 1500 } else { 15000 };
   for case_i in 0..n {
     let t: u32 = match case_i % 8 {
@@ -416,10 +473,71 @@ fn c18_partial_tag_collisions(g: &mut Sm, q: bool) {
   }
 }
 
+/// BOUNDARY TAG BYTES: measurements whose tag begins or ends with 0x00, 0x01, 0x7f, 0x80, 0xfe, 0xff
+/// (found by scanning), all reported in one batch - a bucketing that shards, indexes or ranges on a
+/// tag byte meets every edge of the byte range
+fn c18_boundary_tag_bytes(g: &mut Sm) {
+  let t = 2u32;
+  let epoch = "edge";
+  let base = g.next();
+  let edges = [0x00u8, 0x01, 0x7f, 0x80, 0xfe, 0xff];
+  let mut found: BTreeMap<(usize, u8), Vec<u8>> = BTreeMap::new();
+  for i in 0..20_000u32 {
+    if found.len() == 2 * edges.len() {
+      break;
+    }
+    let m = format!("edge-{}-{}", base, i).into_bytes();
+    let mg = MessageGenerator::new(SingleMeasurement::new(&m), t, epoch.as_bytes());
+    let mut rnd = [0u8; 32];
+    mg.sample_local_randomness(&mut rnd);
+    let mut tag = [0u8; 32];
+    sta_rs::strobe_digest(&rnd, &[&[2u8]], "star_derive_randoms", &mut tag);
+    for pos in [0usize, 31] {
+      if edges.contains(&tag[pos]) {
+        found.entry((pos, tag[pos])).or_insert_with(|| m.clone());
+      }
+    }
+  }
+  stat_n("oracle.C18.boundary_tag_bytes.measurements", found.len() as u64);
+  let mut clients: Vec<(Vec<u8>, Option<Vec<u8>>)> = Vec::new();
+  for (k, m) in found.values().enumerate() {
+    for i in 0..(t as usize + k % 2) {
+      clients.push((m.clone(), if (i + k) % 3 == 0 { None } else { Some(vec![k as u8, i as u8]) }));
+    }
+  }
+  g.shuffle(&mut clients);
+  let msgs: Vec<Message> = clients.iter().map(|(m, a)| make_client(m, epoch.as_bytes(), t, a.clone(), None).msg).collect();
+  let mut want: Bag = BTreeMap::new();
+  for (m, a) in clients.iter() {
+    want.entry(m.clone()).or_insert_with(|| vec![vec![]])[0].push(a.clone());
+  }
+  for v in want.values_mut() {
+    v[0].sort();
+  }
+  for threads in [1usize, 4] {
+    let d = |got: &str| {
+      let which: Vec<String> = found.iter().map(|((pos, b), m)| format!("tag[{}]={:02x}:{}", pos, b, hex(m))).collect();
+      vec![("what", "measurements whose tags begin or end with a boundary byte, one batch".to_string()), ("measurements", which.join(" ")), ("threshold", t.to_string()), ("epoch", epoch.to_string()), ("threads", threads.to_string()), ("expected", show_bag(&want)), ("got", got.to_string())]
+    };
+    match run_server(t, epoch, &msgs, threads) {
+      None => fail("server_panicked", &d("")),
+      Some(outs) => {
+        let got = bag(&outs);
+        if got != want {
+          let kind = if got.values().any(|v| v.len() > 1) { "measurement_output_twice" } else if want.keys().any(|k| !got.contains_key(k)) { "measurement_missing" } else { "wrong_associated_data" };
+          fail(kind, &d(&show_bag(&got)));
+        }
+      }
+    }
+    case(true);
+  }
+}
+
 pub fn c18(tier: &str, seed: u64) {
   let mut g = Sm::new(seed, "oracle.C18");
   let q = quick(tier);
   c18_partial_tag_collisions(&mut g, q);
+  c18_boundary_tag_bytes(&mut g);
   // HIGH thresholds with LARGE buckets (a bucket cut into jobs must still count as one): thresholds
   // above 32 with one measurement of 65..200 reports, next to groups at / just below the threshold
   for (t, big) in [(33u32, 65usize), (40, 70), (65, 129), (33, 200), (100, 101)] {
